@@ -9,12 +9,18 @@ from . import wm_cases as WC
 PROP = "C20"
 KINDS = WC.kinds("KRef")
 SHARD = 14
-RULE = ("corpus = standard-library code objects containing a with statement (45 sampled by seed in quick, all ~440 in "
-        "thorough) + generated sync/generator/coroutine/async-generator bodies over with/async with (1..3 items, "
-        "targets, layouts), try/except/else/finally, for/while/async for, if, match, return/break/continue/raise; "
-        "each yields a 'cert' case (certificate checked by Coq) and a 'static' case (real analysis functions vs model "
-        "at every suspension offset). distinct = distinct code objects; non-trivial = has a certified suspension "
-        "observation with a non-empty truth (cert) / an offset where an exit is in progress (static)")
+RULE = ("corpus = standard-library code objects containing a with statement (20 sampled by seed in quick, all ~440 in "
+        "thorough) + generated sync/generator/coroutine/async-generator bodies over with/async with (1..3 items, targets, "
+        "layouts), try/except/else/finally, for/while/async for, if, match, return/break/continue/raise, for CPython 3.12 and "
+        "(computed by a 3.11 child process on 3.11's own standard library and the same generator) CPython 3.11. Each code "
+        "object yields: a 'cert' case (certificate from the untrusted dataflow, checked by M_Cert.checkk in Coq), a 'static' "
+        "case (real currently_exiting_context / analyze_with_blocks vs the model at every observation offset), a 'join' case "
+        "(the REAL _contexts_active_by_trickery run on every certified observation, stack taken from the certificate, "
+        "exception-table walk and trim executed from inspect_frame's own source), a 'table' case (model of "
+        "_parse_exception_table on the raw co_exceptiontable bytes); plus one 'live' case per program of the runtime leg "
+        "(f_lasti and logged ground truth of real frames must be observations the certified machine offers). distinct = "
+        "distinct code objects; non-trivial = has a certified observation with a non-empty truth / an exit in progress / a "
+        "non-empty reported context list / >= 2 table entries / a non-empty logged truth")
 CONFIG = dict(
     coq=["C20"], level="proof",
     claim=("Coq theorems: (1) for every code object whose certificate Coq's checker accepts (checkk KRef), at every "
